@@ -50,6 +50,8 @@ fn main() {
             let b: u64 = args[6].parse().unwrap();
             let mut out = WorkerOut::default();
             out.stage = Some(stage);
+            WORKER_FAIL_CAP.store(5000, std::sync::atomic::Ordering::Relaxed);
+            let _ = KNOWN_OPEN_KEYS.set(load_known(&format!("{}/known_findings.txt", verif_root())).into_iter().filter(|k| k.status == "open" && k.property == p.id()).map(|k| k.key).collect());
             if b - a > 1 {
                 // watchdog: name the case this process is sitting on instead of making the parent
                 // wait for the chunk's wall cap and bisect
